@@ -1242,7 +1242,8 @@ OPT_GOALS = "pysmt.optimization.goal"
 def _opt_scenarios():
     """(name, assertions builder, symbol domains, goals...)  Every objective is bounded by the assertions, so its
     optimum is attained."""
-    return ["int-box", "int-diag", "int-unsat", "bv-unsigned", "bv-signed", "bool-soft"]
+    return ["int-box", "int-diag", "int-unsat", "bv-unsigned", "bv-signed", "bv-signed-front", "bv-signed-dominated",
+            "bv-signed-dominated-rev", "int-front", "bool-soft"]
 
 
 def _opt_job(job):
@@ -1289,6 +1290,26 @@ def _opt_job(job):
                        w.app("Equals", v, w.app("BVAdd", u, w.bv_const(1, 3)))]
             doms = {u: range(8), v: range(8)}
             goals = [("max u", Max, [u, sg]), ("min u", Min, [u, sg]), ("max v", Max, [v, sg]), ("min v", Min, [v, sg])]
+        elif scen == "bv-signed-front":
+            # u + v = 0 over 3 signed bits (u != -4): no point dominates another, negative values on the front
+            asserts = [w.app("Equals", w.app("BVAdd", u, v), w.bv_const(0, 3)), w.app("Not", w.app("Equals", u, w.bv_const(4, 3)))]
+            doms = {u: range(8), v: range(8)}
+            goals = [("max u", Max, [u, True]), ("max v", Max, [v, True]), ("max v", Max, [v, True])]
+        elif scen.startswith("bv-signed-dominated"):
+            # feasible points with dominated ones and negative coordinates; the oracle's enumeration order is
+            # reversed in the -rev variant so that the search starts from either end
+            pts = [(-3, 2), (0, 2), (2, -1), (-2, -2)]
+            asserts = [w.app("Or", [w.app("And", w.app("Equals", u, w.bv_const(p_ % 8, 3)), w.app("Equals", v, w.bv_const(q_ % 8, 3)))
+                                    for p_, q_ in pts])]
+            rng = list(range(8))
+            if scen.endswith("-rev"):
+                rng = list(reversed(rng))
+            doms = {u: rng, v: rng}
+            goals = [("max u", Max, [u, True]), ("max v", Max, [v, True]), ("max v", Max, [v, True])]
+        elif scen == "int-front":
+            asserts = box(x, 0, 3) + box(y, 0, 3) + [w.app("LE", w.app("Plus", x, y), I(3))]
+            doms = {x: range(-1, 5), y: range(-1, 5)}
+            goals = [("max x", Max, [x]), ("max y", Max, [y]), ("max y", Max, [y])]
         else:
             asserts = [w.app("Or", w.app("Not", a), w.app("Not", b)), w.app("Implies", c, a)]
             doms = {a: (False, True), b: (False, True), c: (False, True)}
@@ -1335,6 +1356,13 @@ def _opt_job(job):
 
         def objective_value(term, asg, signed=False):
             val = sc.nodeval(w, term, asg)
+            so = w.nsort(term)
+            if so[0] == "BV" and signed:
+                return refsem.to_signed(val, so[1])
+            return val
+
+        def cost_val(node, term, signed):
+            val = sc.nodeval(w, node, {})
             so = w.nsort(term)
             if so[0] == "BV" and signed:
                 return refsem.to_signed(val, so[1])
@@ -1434,7 +1462,7 @@ def _opt_job(job):
                         results.append((label, "bad", "reports no solution, the assertions are satisfiable"))
                     else:
                         model, costs = r
-                        cv = [sc.nodeval(w, c_, {}) for c_ in it.iterate(costs)]
+                        cv = [cost_val(c_, t_, sg_) for c_, t_, sg_ in zip(it.iterate(costs), (t1, t2), (s1, s2))]
                         first = [asg for _, asg in sat_all if objective_value(t1, asg, s1) == b1]
                         v2 = [objective_value(t2, asg, s2) for asg in first]
                         want = [b1, (max(v2) if m2 else min(v2))]
@@ -1459,9 +1487,9 @@ def _opt_job(job):
                         results.append((label, "bad", "returns %r" % (r,)))
                     else:
                         cv = []
-                        for g_ in (g1, g2):
+                        for g_, t_, sg_ in ((g1, t1, s1), (g2, t2, s2)):
                             ent = r.get(g_)
-                            cv.append(sc.nodeval(w, ent[1], {}) if ent else None)
+                            cv.append(cost_val(ent[1], t_, sg_) if ent else None)
                         if cv != [b1, b2]:
                             results.append((label, "bad", "returns %r, the separate optima are %r" % (cv, [b1, b2])))
                         elif prob:
@@ -1480,7 +1508,7 @@ def _opt_job(job):
                 pts = []
                 for item in it.iterate(gen):
                     model, costs = item
-                    pts.append(tuple(sc.nodeval(w, c_, {}) for c_ in it.iterate(costs)))
+                    pts.append(tuple(cost_val(c_, t_, sg_) for c_, t_, sg_ in zip(it.iterate(costs), (t1, t2), (s1, s2))))
                 prob = check_stack(s_, label)
                 allp = set((objective_value(t1, asg, s1), objective_value(t2, asg, s2)) for _, asg in sat_all)
 
